@@ -25,6 +25,9 @@ EXPLANATION = (
 EXPLANATION += (
     ' ADDED: The irregular filler is checked on polynomials over (plane_set_id, blockshape[k], i, il_step, min_il, len(geom.xlines), crossline ordinal / number): key order, inline number = (set*bs0 + i)*il_step + min_il, header position = xl ordinal + (set*bs0 + i)*grid width, stores only under the membership test (`key in traces_ref` or `traces_ref.get(key) is not None`). C08.5: the trace ordinal becomes a grid position by selecting the i-th populated mask entry (arange[mask][i], flatnonzero(mask)[i], nonzero/where(mask)[0][i]); a trace ordinal that subscripts the mask itself is a frame error. C08.6 has a floor and also covers an unconditional store.'
 )
+EXPLANATION += (
+    ' C08.2 also: each Geometry3d argument of the inferred geometry is built only from quantities of its own axis (a crossline bound must not contain the inline step).'
+)
 ASSUMPTIONS = ['header codes 189 / 193 are INLINE_3D / CROSSLINE_3D', 'names denote what they say']
 NOT_DECIDED = ('Correctness of the inferred grid for arbitrary subsets ((max-min)//(len-1) is data dependent); the values '
                'read; bitwise equality with the zero-filled ZFP image.')
